@@ -85,6 +85,15 @@ func tagCase(cw *caseWriter, t rscp.Tag, label string) {
 	if !strings.HasSuffix(got, fmt.Sprintf(" back=%d", uint32(t))) {
 		prop = "FAIL C14 tag written to JSON does not read back as itself: " + got
 	}
+	// ... also where encoding/json writes it as the key of a map
+	if js, err := json.Marshal(map[rscp.Tag]int{t: 1}); err != nil {
+		prop = "FAIL C14 tag as the key of a map cannot be written to JSON: " + err.Error()
+	} else {
+		back := map[rscp.Tag]int{}
+		if err := json.Unmarshal(js, &back); err != nil || len(back) != 1 || back[t] != 1 {
+			prop = "FAIL C14 tag written to JSON as the key of a map does not read back as itself: " + string(js)
+		}
+	}
 	if t.IsATag() {
 		if back, err := rscp.TagString(t.String()); err != nil || back != t {
 			prop = "FAIL C14 tag name does not parse back to the same number"
@@ -276,7 +285,7 @@ func coherentInputs(d rscp.DataType) []interface{} {
 		return []interface{}{"", "x", "xyz", strings.Repeat("\x00", 33), []byte{}, []byte{1, 2, 3}, []byte("abc"), json.RawMessage("ab"), net.IP{10, 0, 0, 1},
 			namedBytes{7, 8}, []rscp.DataType{rscp.Bool, rscp.Char8}}
 	case rscp.CString:
-		return []interface{}{"", "x", "xyz", strings.Repeat("a", 32), "\x00"}
+		return []interface{}{"", "x", "xyz", strings.Repeat("a", 32), "\x00", "K\xfcche", "\xff", "\xe2\x82", "gr\xc3\xbc\xc3\x9f"}
 	case rscp.Bool:
 		return []interface{}{float64(0), float64(1)}
 	case rscp.Char8:
